@@ -257,13 +257,13 @@ def tla(v: Any) -> str:
 
 
 def load_findings() -> list[dict[str, Any]]:
-    p = VERIF / "known_findings.jsonl"
     out = []
-    if p.exists():
-        for line in p.read_text().splitlines():
-            line = line.strip()
-            if line and not line.startswith("#"):
-                out.append(json.loads(line))
+    for p in [VERIF / "known_findings.jsonl"] + sorted((VERIF / "findings").glob("*.jsonl")):
+        if p.exists():
+            for line in p.read_text().splitlines():
+                line = line.strip()
+                if line and not line.startswith("#"):
+                    out.append(json.loads(line))
     return out
 
 
